@@ -1,7 +1,7 @@
 (* Properties/C04.v — Reported field offsets locate the field's bytes in the encoding.
    Only statements, each closed by `exact` of a lemma proved in Offsets/OffsetProofs.v. *)
 From FV Require Import Base.Bytes Base.U64 Codec.CodecModel Gen.Schemas Gen.TxConsts TxId.IdSpec
-     Offsets.OffsetSpec Offsets.OffsetModel Offsets.OffsetProofs Offsets.OffsetDynamic Offsets.OffsetCached Offsets.OffsetInput.
+     Offsets.OffsetSpec Offsets.OffsetModel Offsets.OffsetProofs Offsets.OffsetDynamic Offsets.OffsetCached Offsets.OffsetInput Offsets.OffsetInputAfter.
 Local Open Scope list_scope.
 Open Scope N_scope.
 
@@ -164,10 +164,10 @@ Theorem C04_locates_input_dynamic_const :
 Proof. exact input_dynamic_const. Qed.
 Print Assumptions C04_locates_input_dynamic_const.
 
-(* OPEN (not proved; executed on every correspondence case by Run/Offsets.v statement_holds, and
-   checked on the real code by the oracle): the two offsets inside an input that come after another
-   byte vector (predicate after message data; predicate data after the predicate), and
-   inputs_predicate_offset_at with its padded length. *)
+(* inside an input: the two offsets that come after another byte vector (the predicate of a
+   message-data predicate input, after the message data; the predicate data of a predicate coin /
+   message-coin / message-data input, after the predicate), when the input's encoding is shorter
+   than 2^64 bytes *)
 Definition C04_locates_input_dynamic_after_statement : Prop :=
   forall (f : infn) (j : nat) (x : val) (n : String.string) (o : N),
     (j < 7)%nat -> typed (input_comp j) x = true -> lenN (enc S_Input (VE j [x])) <= u64_max ->
@@ -175,6 +175,23 @@ Definition C04_locates_input_dynamic_after_statement : Prop :=
     (f = PredicateDataOffset \/ (f = PredicateOffset /\ j = 6%nat)) ->
     input_fn f (VE j [x]) = Some o ->
     exists s bs, in_sel f j = Some s /\ locate_in S_Input (VE j [x]) s = Some (o, bs).
+Theorem C04_locates_input_dynamic_after : C04_locates_input_dynamic_after_statement.
+Proof. exact input_dynamic_after. Qed.
+Print Assumptions C04_locates_input_dynamic_after.
+(* the same with the bytes: the input's encoding at the reported offset is the field's padded bytes *)
+Theorem C04_locates_input_dynamic_after_slice :
+  forall (f : infn) (j : nat) (x : val) (n : String.string) (o : N),
+    (j < 7)%nat -> typed (input_comp j) x = true -> lenN (enc S_Input (VE j [x])) <= u64_max ->
+    in_field_of f j = Some (n, PDynamic) ->
+    (f = PredicateDataOffset \/ (f = PredicateOffset /\ j = 6%nat)) ->
+    input_fn f (VE j [x]) = Some o ->
+    exists s bs, in_sel f j = Some s /\ locate_in S_Input (VE j [x]) s = Some (o, bs) /\
+                 slice (enc S_Input (VE j [x])) o (lenN bs) = bs.
+Proof. exact input_dynamic_after_slice. Qed.
+Print Assumptions C04_locates_input_dynamic_after_slice.
+
+(* OPEN (not proved; executed on every correspondence case by Run/Offsets.v statement_holds, and
+   checked on the real code by the oracle): inputs_predicate_offset_at with its padded length. *)
 Definition C04_predicate_padded_statement : Prop :=
   forall (k : kind) (v : val) (i : nat) (o len : N),
     typed (kind_ty k) v = true -> lenN (enc (kind_ty k) v) <= u64_max ->
